@@ -44,6 +44,9 @@ func init() {
 
 const c08Watchdog = 2 * time.Second
 
+// hook for additional checks over the cases of check 801 (set by other files of the harness in their init)
+var c08Extra func(fields []string)
+
 // ---- schema text / case fields with [packed=false] ------------------------------------------------
 
 func c08Text(s *pgSchema, unpacked map[*pgField]bool) string {
@@ -609,6 +612,9 @@ func c08One(r *rng, st *c08Stats, t *c08Target, v *pgVal, unknown []byte, i64s, 
 	ob2, _ := hex.DecodeString(res.Out2)
 	fields := append(append([]string{}, schemaFields...), fb(i64s), fb(dis), fx(b), fi(res.Err), fx(ob), fi(res.Err2), fx(ob2), fx(pre))
 	out.emit(801, fields...)
+	if c08Extra != nil {
+		c08Extra(fields) // further checks on the same case (c08_bytes.go: 802)
+	}
 	st.cases++
 	st.bytes += len(b)
 	if len(unknown) > 0 {
